@@ -424,8 +424,21 @@ class Composite(LexicalParent[Node], HasCreator, Node, ABC):
     def _parse_remotely_executed_self(self, other_self):
         # Live executors do not survive serialization; remember the local ones
         local_executors = self._child_executors()
+        # Connections between our children and anything that is not one of our children
+        # do not travel with the serialized copy; remember them (per channel, oldest
+        # first) for the children that come back, and let the ditched children go
+        ditched = {id(node) for node in self}
+        external = [
+            (node.label, panel_name, channel.label, partner)
+            for node in self
+            for panel_name, panel in node._io_panels_by_name().items()
+            for channel in panel
+            for partner in reversed(channel.connections)
+            if id(partner.owner) not in ditched
+        ]
         # Un-parent existing nodes before ditching them
         for node in self:
+            node.disconnect()
             node._parent = None
             node._detached_parent_path = None
         other_self.running = False  # It's done now
@@ -438,6 +451,12 @@ class Composite(LexicalParent[Node], HasCreator, Node, ABC):
             for label, channel in remote_outputs.items():
                 self.outputs[label].value = channel.value
         self._restore_child_executors(local_executors)
+        for node_label, panel_name, channel_label, partner in external:
+            child = self.children.get(node_label)
+            if child is None:
+                continue
+            with contextlib.suppress(Exception):
+                child._io_panels_by_name()[panel_name][channel_label].connect(partner)
 
     def _get_state_from_remote_other(self, other_self):
         state = other_self.__getstate__()
